@@ -22,6 +22,7 @@ import (
 //	EMPTYHS           empty handshake record
 //	APP0              empty application-data record
 //	[ ... ]           the handshake messages in between share one record
+//	{ ... }           the records in between share one datagram (one transport write)
 //	RAW:<hex>         raw bytes on the transport
 //
 // receive side:
@@ -111,6 +112,22 @@ func (p *Peer) Run(o *Opts, ops []string) *Outcome {
 		case op == "HREQ":
 			// a HelloRequest (handshake type 0, no body): not a TLCP message, not part of any transcript
 			err = p.SendMsg(0, nil, true)
+		case op == "{":
+			// everything sent up to the matching "}" travels in ONE datagram / transport write
+			g, ok := p.T.(*gatherT)
+			if !ok {
+				g = &gatherT{Transport: p.T}
+				p.T = g
+			}
+			g.on = true
+		case op == "}":
+			if g, ok := p.T.(*gatherT); ok {
+				g.on = false
+				if len(g.buf) > 0 {
+					err = g.Transport.Send(g.buf)
+					g.buf = nil
+				}
+			}
 		case op == "[":
 			p.BeginPack()
 		case op == "]":
@@ -523,4 +540,19 @@ func (p *Peer) recvApp() error {
 			return nil
 		}
 	}
+}
+
+// gatherT collects what is sent while on is set, so that several records leave as one datagram.
+type gatherT struct {
+	Transport
+	buf []byte
+	on  bool
+}
+
+func (g *gatherT) Send(b []byte) error {
+	if g.on {
+		g.buf = append(g.buf, b...)
+		return nil
+	}
+	return g.Transport.Send(b)
 }
